@@ -1588,7 +1588,11 @@ func isComplexAggregationExpression(expr string) bool {
 	if aggCount == 1 && outerIsAggregation {
 		start := strings.Index(expr, "(")
 		end := strings.LastIndex(expr, ")")
-		if start != -1 && end != -1 && end > start {
+		// The special case is "the whole item is one aggregate call": the call's own
+		// closing parenthesis must end the item. Without this, "avg(t) * 1.8 + 32" was
+		// mistaken for a single call (its last ")" is avg's) and evaluated per row.
+		wholeItemIsOneCall := start != -1 && findMatchingParenInternal(expr, start) == len(strings.TrimRight(expr, " \t"))-1
+		if start != -1 && end != -1 && end > start && wholeItemIsOneCall {
 			innerExpr := strings.TrimSpace(expr[start+1 : end])
 			if !containsOperators(innerExpr) {
 				isSingleAggWithNestedFunc = true
